@@ -34,12 +34,12 @@ import (
 // the same way, and keeps the lowest-ordered case so that the reported example is the same on every run.
 
 type vrec struct {
-	NoSplit            bool // the splitting option does not apply (body decoders)
-	What               string
-	Case               [2]any
-	Obs, Exp           [2]any
-	Ord                [2]int64
-	Count              [2]int64
+	NoSplit  bool // the splitting option does not apply (body decoders)
+	What     string
+	Case     [2]any
+	Obs, Exp [2]any
+	Ord      [2]int64
+	Count    [2]int64
 }
 
 type collector struct {
@@ -443,7 +443,7 @@ func main() {
 		_ = syscall.Setrlimit(syscall.RLIMIT_AS, &syscall.Rlimit{Cur: 12 << 30, Max: 12 << 30})
 		l := core.NewLocal()
 		col := newCollector()
-		t := &tot{l: l, st: [2]*station{newStation(false), newStation(true)}, budget: *budgetFlag}
+		t := &tot{sample: r.Worker == 0, l: l, st: [2]*station{newStation(false), newStation(true)}, budget: *budgetFlag}
 		for gi, g := range groups {
 			g := g
 			if r.Expired() {
@@ -539,7 +539,7 @@ func main() {
 				"hostile_keys": len(hostileKeys), "hostile_values": len(hostileVals), "hostile_body_fragments": len(bodyFrags), "content_types": len(ctypes),
 				"max_components_per_hostile_request": 2, "totality_groups": len(groups), "totality_cases": totalCases,
 				"alloc_budget_bytes": budget, "alloc_max_wellformed_bytes": maxWF, "alloc_wellformed_calibration": calib,
-				"alloc_rule":         "budget = 64 x the largest TotalAlloc delta of a well-formed request (40-element slices, 300-byte strings) over all carriers, at least 1 MiB, rounded up to a power of two; measured per batch of 64 request pairs and per request when a batch exceeds it",
+				"alloc_rule": "budget = 64 x the largest TotalAlloc delta of a well-formed request (40-element slices, 300-byte strings) over all carriers, at least 1 MiB, rounded up to a power of two; measured per batch of 64 request pairs and per request when a batch exceeds it",
 			},
 		},
 		Assumptions: []string{
